@@ -79,8 +79,10 @@ type Expr struct {
 	Fors  []*Phrase
 	Tys   []*Ty
 	Two   bool
-	Cmd   bool // errBang/errQ written in command style: `f! a, b` / `f? a` (statement position only)
-	D     *Expr
+	XSrc  string // errwrap: the operand as written in the XGo source when it is not `S(args)` (`f`, `c.get`, `mk()()`);
+	// conv: the named type; harness-only surface, the model sees the call of S / the plain value
+	Cmd bool // errBang/errQ written in command style: `f! a, b` / `f? a` (statement position only)
+	D   *Expr
 }
 
 type Phrase struct {
@@ -105,6 +107,7 @@ type Stmt struct {
 	X          *Expr
 	Body, Else []*Stmt
 	Spread     bool
+	XT         string // varDecl: named type written in the XGo text (harness-only)
 }
 
 type Param struct {
@@ -136,6 +139,16 @@ func Var(x string) *Expr    { return &Expr{K: "var", S: x} }
 func Bin(op string, a, b *Expr) *Expr {
 	return &Expr{K: "bin", S: op, Args: []*Expr{a, b}}
 }
+
+// Conv: `T(e)` with a NAMED container type T declared only in the XGo text; the model sees e.
+func Conv(t string, e *Expr) *Expr { return &Expr{K: "conv", XSrc: t, Args: []*Expr{e}} }
+
+// RangeE: the range expression `a:b:c`; the model sees the call rng(a, b, c) of a scenario function
+// that builds the documented sequence (operands once, left to right).
+func RangeE(rng string, a, b, c *Expr) *Expr {
+	return &Expr{K: "rangeE", S: rng, Args: []*Expr{a, b, c}}
+}
+
 func Neg(a *Expr) *Expr                 { return &Expr{K: "neg", Args: []*Expr{a}} }
 func Not(a *Expr) *Expr                 { return &Expr{K: "not", Args: []*Expr{a}} }
 func SliceLit(t *Ty, es ...*Expr) *Expr { return &Expr{K: "sliceLit", T: t, Args: es} }
@@ -221,6 +234,9 @@ func xs(es []*Expr, f func(*Expr) string) string {
 // (printer.Fprint of v.X); arguments of wrapped calls are kept to atoms and probe calls so that
 // gofmt spacing rules cannot differ.
 func (e *Expr) CallCode() string {
+	if e.XSrc != "" {
+		return e.XSrc
+	}
 	if e.Cmd {
 		return e.S + " " + xs(e.Args, (*Expr).XGo)
 	}
@@ -307,6 +323,10 @@ func (e *Expr) XGo() string {
 			return "-" + e.Args[0].px(6)
 		}
 		return "-(" + e.Args[0].XGo() + ")"
+	case "conv":
+		return e.XSrc + "(" + e.Args[0].XGo() + ")"
+	case "rangeE":
+		return e.Args[0].px(7) + ":" + e.Args[1].px(7) + ":" + e.Args[2].px(7)
 	case "sliceLit":
 		return "[" + xs(e.Args, (*Expr).XGo) + "]"
 	case "xmapLit":
@@ -387,6 +407,9 @@ func (s *Stmt) XGo(ind string) string {
 	case "setIndex":
 		return ind + s.M + "[" + s.Es[0].XGo() + "] = " + s.Es[1].XGo() + "\n"
 	case "varDecl":
+		if s.XT != "" {
+			return ind + "var " + s.M + " " + s.XT + "\n"
+		}
 		return ind + "var " + s.M + " " + s.T.Go() + "\n"
 	case "expr":
 		return ind + s.Es[0].XGo() + "\n"
@@ -507,6 +530,10 @@ func (e *Expr) SExp() string {
 		return "(bin " + e.S + ss(e.Args) + ")"
 	case "not":
 		return "(not" + ss(e.Args) + ")"
+	case "conv":
+		return e.Args[0].SExp()
+	case "rangeE":
+		return "(call " + e.S + ss(e.Args) + ")"
 	case "neg": // the model has no unary minus: -x is 0 - x
 		return "(bin sub (lit (i 0))" + ss(e.Args) + ")"
 	case "sliceLit":
